@@ -19,8 +19,10 @@ to the summands.  Threshold decisions are compared on decisive lattice points on
 """
 import json
 import math
+import os
 import random
 import warnings
+from concurrent.futures import ThreadPoolExecutor
 from datetime import timedelta
 
 from .common import Report, jhash
@@ -385,7 +387,7 @@ def self_test(rep, bhv, seed):
 
 
 # ------------------------------------------------------------------ the check
-def check_C18(tier, seed):
+def check_C18(tier, seed, _n=None, _procs=None):
     from .props_acnsim import gen_behaviours, run_pool
     rep = Report("C18", tier, seed)
     rep.rule = ("behaviours of Analysis.tla (the AcnSim simulator model + the value of every analysis function) emitted "
@@ -405,31 +407,34 @@ def check_C18(tier, seed):
         "tariff lookup itself belongs to C17",
     ]
     quick = tier == "quick"
-    # (A) theorems, exhaustively
+    # (A) theorems, exhaustively; (B) behaviours + analysis values.  The TLC runs are independent: started together.
     cfg = "Analysis_mc_quick" if quick else "Analysis_mc_small"
-    mc = run_tlc(MODULE, cfg, coverage=quick, timeout=3000)
+    n = _n or (600 if quick else 24000)
+    procs = _procs or (4 if quick else 12)
+    workers = int(os.environ.get("VERIF_TLC_WORKERS", "0")) or None
+    with ThreadPoolExecutor(max_workers=3) as ex:
+        f_mc = ex.submit(run_tlc, MODULE, cfg, coverage=quick, timeout=3000, workers=workers)
+        f_tiny = ex.submit(gen_behaviours, "Analysis_gen_tiny", {}, 0, 0, seed, module=MODULE, exhaustive=True)
+        f_gen = ex.submit(gen_behaviours, "Analysis_gen", {}, n, 100, seed, procs=procs, module=MODULE)
+        mc = f_mc.result()
+        tiny, st = f_tiny.result()
+        bhvs, stats = f_gen.result()
     rep.add_tlc(mc, "exhaustive model checking of the analysis theorems: " + THEOREMS, cfg, require_actions=ACTIONS)
     require_ok(mc, "Analysis model checking")
-    import os
-    rep.bounds["model_checking"] = open(os.path.join(os.path.dirname(__file__), "..", "spec", "cfg", cfg + ".cfg")
-                                        ).read().split("INIT")[0]
-    # (B) behaviours + analysis values
-    tiny, st = gen_behaviours("Analysis_gen_tiny", {}, 0, 0, seed, module=MODULE, exhaustive=True)
+    cfgdir = os.path.join(os.path.dirname(__file__), "..", "spec", "cfg")
+    rep.bounds["model_checking"] = open(os.path.join(cfgdir, cfg + ".cfg")).read().split("INIT")[0]
     rep.add_tlc(st[0], "behaviour generation, exhaustive tiny configuration (3 stations)", "Analysis_gen_tiny")
-    n = 1400 if quick else 40000
-    bhvs, stats = gen_behaviours("Analysis_gen", {}, n, 100, seed, procs=4 if quick else 12, module=MODULE)
     for s in stats:
         rep.add_tlc(s, "behaviour generation (-simulate; theorems evaluated on every sampled state), 6 stations",
                     "Analysis_gen")
-    rep.bounds["generation"] = open(os.path.join(os.path.dirname(__file__), "..", "spec", "cfg", "Analysis_gen.cfg")
-                                    ).read().split("INIT")[0]
+    rep.bounds["generation"] = open(os.path.join(cfgdir, "Analysis_gen.cfg")).read().split("INIT")[0]
     allb = tiny + bhvs
     rep.exhaustive = False
     rep.notes.append("every behaviour of Analysis_gen_tiny (%d) replayed; %d sampled behaviours of Analysis_gen"
                      % (len(tiny), len(bhvs)))
     self_test(rep, next((b for b in bhvs if nontrivial(b)), allb[0]), seed)
     cases = [{"bhv": b, "var": variation_for(i, b, seed), "seed": seed * 100003 + i} for i, b in enumerate(allb)]
-    results = run_pool(_work, cases, 4 if quick else 12)
+    results = run_pool(_work, cases, procs)
     requests = set()
     calls = 0
     for case, (d, foreign, stats_) in zip(cases, results):
